@@ -155,6 +155,11 @@ func createASTTypeExpr(pkg string, t types.Type, varPool *VarPool, imports map[s
 			return nil, fmt.Errorf("chan element: %w", err)
 		}
 
+		// "chan <-chan T" would be read as "chan<- (chan T)"
+		if elem, ok := typ.Elem().(*types.Chan); ok && typ.Dir() == types.SendRecv && elem.Dir() == types.RecvOnly {
+			expr = &ast.ParenExpr{X: expr}
+		}
+
 		return &ast.ChanType{
 			Dir:   dir,
 			Value: expr,
